@@ -837,17 +837,19 @@ func (g *Generator) getMethodPath(method *protogen.Method, basePath string, pack
 		if !strings.HasPrefix(customPath, "/") {
 			customPath = "/" + customPath
 		}
-		return basePath + customPath
+		return annotations.EnsureLeadingSlash(basePath + customPath)
 	}
 
 	// If only custom path, use it
 	if customPath != "" {
-		return customPath
+		return annotations.EnsureLeadingSlash(customPath)
 	}
 
 	// Generate default path
 	if basePath != "" {
-		return fmt.Sprintf("%s/%s", strings.TrimSuffix(basePath, "/"), camelToSnake(method.GoName))
+		return annotations.EnsureLeadingSlash(
+			fmt.Sprintf("%s/%s", strings.TrimSuffix(basePath, "/"), camelToSnake(method.GoName)),
+		)
 	}
 
 	return fmt.Sprintf("/%s/%s", packageName, camelToSnake(method.GoName))
